@@ -202,6 +202,9 @@ pub fn corpus(tier: Tier) -> Arc<Vec<TDoc>> {
     for v in univ::d1q().iter().filter(|v| v.all_finite()).step_by(if tier.thorough() { 1 } else { 6 }) {
         texts.push(refmodel::text::print(v).into_bytes());
     }
+    for v in refmodel::gen::keyorder_docs().iter().step_by(if tier.thorough() { 1 } else { 2 }) {
+        texts.push(refmodel::text::print(v).into_bytes());
+    }
     for s in special_texts() {
         texts.push(s.as_bytes().to_vec());
     }
